@@ -65,7 +65,7 @@ def run(tier, wd):
                      "a group = one spec x one command line (random sentence of the spec, often with one required option removed, shuffled, "
                      "sometimes perturbed) x a pair of environments E, E+{o} (TLC confirms they differ by exactly one option); accepted under E "
                      "must stay accepted under E+{o} with the same option values (--free specs), and each run must agree with the reference "
-                     "under its own environment; non-trivial = the reference accepts under at least one of the two")
+                     "under its own environment; non-trivial = the reference accepts under at least one of the two", check_oracle=True)
     rep.cov["specs"] = len(specs)
     rep.assumptions += ["standard program (see C01); every environment variable holds a valid value",
                         "cases whose verdict hinges on a group being satisfiable by the environment alone are unclaimed (DESIGN 3.6 iii)"]
